@@ -1417,6 +1417,12 @@ func runC11(r *Rng, tier string, n int) {
 	// (3) model cases
 	boundaryCases(r, single)
 	boundaryCases(r, multi)
+	// queued session cases are spread evenly between the others
+	for i := len(sessPending) - 1; i > 0; i-- {
+		j := r.Intn(i + 1)
+		sessPending[i], sessPending[j] = sessPending[j], sessPending[i]
+	}
+	perIter := (len(sessPending) + nmodel - 1) / nmodel
 	for i := 0; i < nmodel; i++ {
 		m := genMsg(r, true)
 		c := genCfg(r)
@@ -1439,6 +1445,7 @@ func runC11(r *Rng, tier string, n int) {
 		if i%13 == 0 {
 			c.alg = []string{dns.HmacMD5, "hmac-sha256.example."}[r.Intn(2)]
 		}
+		drainSess(perIter)
 		emitGenerate(m, c, ks)
 		out, _, stub, err := sign(m, c, ks)
 		if err != nil {
@@ -1475,6 +1482,7 @@ func runC11(r *Rng, tier string, n int) {
 		p, _ := m.Pack()
 		emitVerify(p, ks, c.rm, c.timers, now) // no TSIG at all
 	}
+	drainSess(-1)
 	st["algorithms"] = len(algs)
 	Stat(st)
 }
